@@ -192,7 +192,7 @@ func RuleZone(r *Report, p *Program, c *Codec) {
 	r.Rule("Z1", "civil dates and times are built and parsed in the process-local zone; a UTC parse is tolerated only when its result is used solely through civil-field accessors", 10)
 	r.Rule("Z2", "encoders format the civil fields of the stored instant itself", 4)
 	r.Rule("Z3", "a date-only value (local midnight) is never produced without re-checking the civil day of the result: where a DST change removes 00:00 time.Date/ParseInLocation resolve to the previous day", 1)
-	r.Rule("Z4", "the controller system date and time are recombined with the layouts they were formatted with, in the process-local zone, identically for GetStatus and the event listener", 2)
+	r.Rule("Z4", "the controller system date and time are recombined with the layouts they were formatted with, in the process-local zone, identically for GetStatus and the event listener", 1)
 	for _, fn := range p.AllFuncs {
 		if fn.Pkg == nil && fn.Parent() == nil {
 			continue
